@@ -20,17 +20,22 @@ class ALTerminal(busmodel.TerminalModel):
     """ETG.1000.6 AL state machine: a requested state is reported after
     `delay[k]` further polls; an error (bit 4) may appear at poll `err_at`
     while a change is pending; an acknowledge (bit 4 in AL control) clears
-    the error and the terminal is in the requested state (INIT)"""
+    the error at once and the terminal reaches the requested state (INIT)
+    after `ack_delay` further polls -- until then it still reports the state
+    it was in; a new request replaces a pending one"""
 
-    def __init__(self, state, error, status, delays, err_at, hi_bits):
+    def __init__(self, state, error, status, delays, err_at, hi_bits,
+                 ack_delay=0):
         super().__init__("al", position=1000)
         self.state, self.error, self.status = state, error, status
         self.delays, self.err_at, self.hi_bits = delays, err_at, hi_bits
         self.pending = None
         self.polls_pending = 0
+        self.cur_delay = 0
+        self.ack_delay = ack_delay
         self.nreq = 0
         self.polls = 0
-        self.poll_limit = 4 * (sum(delays) + len(delays)) + 12
+        self.poll_limit = 4 * (sum(delays) + len(delays) + ack_delay) + 12
         self.events = []          # ("w", value) / ("r", state, error)
 
     def write_120(self, data):
@@ -39,12 +44,18 @@ class ALTerminal(busmodel.TerminalModel):
         self.events.append(("w", v))
         if v & 0x10:
             self.error = False
-            self.state = v & 0xf
-            self.pending = None
+            if self.ack_delay == 0:
+                self.state = v & 0xf
+                self.pending = None
+            else:
+                self.pending = v & 0xf
+                self.polls_pending = 0
+                self.cur_delay = self.ack_delay
             return
         self.pending = v & 0xf
         self.polls_pending = 0
         self.nreq += 1
+        self.cur_delay = self.delays[min(self.nreq - 1, len(self.delays) - 1)]
 
     def read_130(self, n):
         self.polls += 1
@@ -56,11 +67,10 @@ class ALTerminal(busmodel.TerminalModel):
                 f"(state {self.state}, error flag {self.error}): it neither "
                 "returns nor raises")
         if self.pending is not None:
-            k = min(self.nreq - 1, len(self.delays) - 1)
             if self.err_at == self.polls:
                 self.error = True
                 self.pending = None
-            elif self.polls_pending >= self.delays[k]:
+            elif self.polls_pending >= self.cur_delay:
                 self.state = self.pending
                 self.pending = None
             else:
@@ -74,7 +84,7 @@ class ALTerminal(busmodel.TerminalModel):
             __import__("struct").pack("<H2xH", word, self.status)[:n]
 
 
-def make_harness(target_code, npoll, only_start=None):
+def make_harness(target_code, npoll, only_start=None, ackmax=1):
     def harness():
         eth = pysym.module("ethercat")
         start = E.int("start", 1, 8)
@@ -87,8 +97,10 @@ def make_harness(target_code, npoll, only_start=None):
         hi_bits = E.int("al_status_upper_bits", bits=16)
         delays = [int(E.int(f"delay{k}", 0, npoll)) for k in range(3)]
         err_at = int(E.int("err_at", 0, 3 * (npoll + 1) + 2))   # 0 = never
+        ack_delay = int(E.int("ack_delay", 0, min(npoll, ackmax)))
         target = eth.MachineState(target_code)
-        model = ALTerminal(start, error, status, delays, err_at, hi_bits)
+        model = ALTerminal(start, error, status, delays, err_at, hi_bits,
+                           ack_delay)
         bus = busmodel.Bus(eth, [model])
         outcome = {}
 
@@ -157,7 +169,8 @@ def worker(args):
     res = pyrun.new_res()
     name = f"to_operational(target={target}) start={st0} polls<={npoll}"
     try:
-        st = pyrun.run("C14", name, make_harness(target, npoll, st0), res,
+        st = pyrun.run("C14", name,
+                       make_harness(target, npoll, st0, 1 if npoll <= 2 else npoll), res,
                        sig=lambda w: w.split("(")[0].strip()[:80])
         res["samples"].append(dict(harness=name, **{
             k: st[k] for k in ("paths", "aborted", "decisions", "obligations",
@@ -177,7 +190,9 @@ def main(tier, replay_file=None):
                     targets="PRE-OP, SAFE-OP, OP",
                     polls_per_transition=f"0..{npoll} (symbolic, per transition)",
                     error="initial error flag symbolic; an error may appear "
-                          "at any poll (symbolic poll number) or never",
+                          "at any poll (symbolic poll number) or never; the "
+                          f"acknowledged terminal needs 0..{1 if npoll <= 2 else npoll} polls "
+                          "(symbolic) to leave the state it reported",
                     status_code="16-bit symbolic; unused AL-status bits symbolic",
                     outside="terminals that never report the requested state; "
                             "BOOTSTRAP"),
